@@ -686,12 +686,15 @@ Definition power_request (shape : chassis_control_shape) (code : N) : option req
 Fixpoint assoc_str {A} (l : list (string * A)) (k : string) : option A :=
   match l with [] => None | (k', v) :: t => if String.eqb k' k then Some v else assoc_str t k end.
 
-(* 'chassis power <sub>': COMMANDS entry -> lambda i, a: i.<m>() -> Chassis.<m> ->
+(* 'chassis power <sub>': COMMANDS entry -> handler that only calls i.<m>() -> Chassis.<m> ->
    chassis_control(code) -> ChassisControl request *)
 Definition power_sends (cmds : list command) (ptbl : list (string * power_entry))
            (shape : chassis_control_shape) (sub : string) : option request :=
   match get_command_function cmds ("chassis power " +++ sub) 0, assoc_str ptbl sub with
-  | Some (_, HLambda [mkCall m (Some O) []]), Some (PCode m' code) =>
-      if String.eqb m m' then power_request shape code else None
+  | Some (_, h), Some (PCode m' code) =>
+      match handler_calls h with
+      | Some [mkCall m (Some O) []] => if String.eqb m m' then power_request shape code else None
+      | _ => None
+      end
   | _, _ => None
   end.
